@@ -15,7 +15,15 @@ use crate::{
 
 /// seeds other than the prover's: +1, each single byte flipped (bit 0 of byte i), unrelated
 fn other_seeds(s: &Scalar, all_bytes: bool) -> Vec<(String, Scalar)> {
-    let mut v = vec![("s+1".to_string(), s + Scalar::ONE), ("unrelated".to_string(), seed_scalar(99))];
+    let mut v = vec![
+        ("s+1".to_string(), s + Scalar::ONE),
+        ("unrelated".to_string(), seed_scalar(99)),
+        // the corners of the scalar field are seeds like any other
+        ("zero".to_string(), Scalar::ZERO),
+        ("one".to_string(), Scalar::ONE),
+        ("minus-one".to_string(), -Scalar::ONE),
+        ("-s".to_string(), -s),
+    ];
     let bytes: Vec<usize> = if all_bytes { (0..32).collect() } else { vec![0, 15, 30, 31] };
     for i in bytes {
         let mut b = s.to_bytes();
@@ -36,7 +44,7 @@ fn keyed_case<P: G>(cfg: Cfg, tier: Tier) -> Box<dyn Case> {
         let s = seed_scalar(5);
         wit.seed = Some(s);
         let built = build_cached::<P>(&cfg, &wit).honest();
-        let proof = lib_prove(&built, &CTX_A, &mut HRng::chacha(61)).honest();
+        let proof = lib_prove_honest(&built, &CTX_A, &mut HRng::chacha(61));
         let truth = wit.blindings[0].clone();
         let bytes = P::to_bytes(&proof);
         let h = built.params.h_base().clone();
@@ -162,7 +170,7 @@ fn batch_consistency_case<P: G>(d: usize) -> Box<dyn Case> {
             }
             let built = build_cached::<P>(&cfg, &wit).honest();
             let ctx = contexts()[pos % 6];
-            let proof = lib_prove(&built, &ctx, &mut HRng::chacha(70 + pos as u64)).honest();
+            let proof = lib_prove_honest(&built, &ctx, &mut HRng::chacha(70 + pos as u64));
             (built.statement.clone(), proof, ctx)
         };
         for a in 0..kinds.len() {
@@ -208,6 +216,75 @@ fn batch_consistency_case<P: G>(d: usize) -> Box<dyn Case> {
     })
 }
 
+/// The same output (commitment and proof) several times in one batch under different seeds: every member's mask is the mask
+/// that member gets when verified alone (so it is keyed by ITS seed, whatever its neighbours carry)
+fn duplicate_members_case<P: G>(cfg: Cfg) -> Box<dyn Case> {
+    case(format!("{}/{}/same-output-different-seeds", P::NAME, cfg.key()), move |_v| {
+        fg::clear_intern();
+        let mut res = CaseResult::new("explored");
+        let mut wit = Wit::default_for(&cfg);
+        let s = seed_scalar(5);
+        wit.seed = Some(s);
+        let built = build_cached::<P>(&cfg, &wit).honest();
+        let proof = lib_prove_honest(&built, &CTX_A, &mut HRng::chacha(61));
+        let seeds: Vec<(&str, Option<Scalar>)> = vec![("prover", Some(s)), ("wrong1", Some(seed_scalar(98))), ("wrong2", Some(Scalar::ZERO)), ("none", None)];
+        let alone: Vec<Vec<Observed>> = seeds
+            .iter()
+            .map(|(_, seed)| {
+                let st = restate(&built, built.commitments.clone(), wit.promises.clone(), *seed).unwrap();
+                [VerifyAction::RecoverAndVerify, VerifyAction::RecoverOnly].map(|mode| verify_observed_one(&st, &proof, &CTX_A, mode)).into_iter().collect()
+            })
+            .collect();
+        if !alone.iter().all(|v| v.iter().all(|o| o.is_ok())) {
+            res.outcome = "member-not-accepted-alone(skipped)".into();
+            return res;
+        }
+        let mut seqs: Vec<Vec<usize>> = Vec::new();
+        for a in 0..seeds.len() {
+            for b in 0..seeds.len() {
+                seqs.push(vec![a, b]);
+                if a != b {
+                    seqs.push(vec![a, b, a]);
+                }
+            }
+        }
+        for seq in seqs {
+            res.transitions += 1;
+            let sts: Vec<_> = seq.iter().map(|k| restate(&built, built.commitments.clone(), wit.promises.clone(), seeds[*k].1).unwrap()).collect();
+            let proofs: Vec<_> = seq.iter().map(|_| P::proof_clone(&proof)).collect();
+            let name: Vec<&str> = seq.iter().map(|k| seeds[*k].0).collect();
+            for (mi, mode) in [VerifyAction::RecoverAndVerify, VerifyAction::RecoverOnly].into_iter().enumerate() {
+                let mut ts: Vec<merlin::Transcript> = seq.iter().map(|_| CTX_A.transcript()).collect();
+                let obs = verify_observed(&sts, &proofs, &mut ts, mode);
+                res.executions += 1;
+                res.validated += 1;
+                match &obs.result {
+                    Some(Ok(masks)) => {
+                        for (i, k) in seq.iter().enumerate() {
+                            let want = match &alone[*k][mi].result {
+                                Some(Ok(m)) => m[0].clone(),
+                                _ => unreachable!(),
+                            };
+                            *res.outcome_counter("in-batch-mask-compared-with-alone") += 1;
+                            if masks.get(i) != Some(&want) {
+                                res.violate(
+                                    format!("[{}]/{}", name.join(","), mode_name(mode)),
+                                    format!("member {} (seed {}) gets a mask in the batch that differs from the mask it gets alone", i, seeds[*k].0),
+                                );
+                            }
+                        }
+                    },
+                    _ => res.violate(
+                        format!("[{}]/{}", name.join(","), mode_name(mode)),
+                        format!("a batch of members each accepted alone is not accepted: {}", obs.describe()),
+                    ),
+                }
+            }
+        }
+        res
+    })
+}
+
 /// A batch beyond the chunk limit whose first chunk carries no seed: both recovering modes must agree on every mask
 fn long_consistency_case<P: G>() -> Box<dyn Case> {
     case(format!("{}/long-batch-consistency", P::NAME), move |_v| {
@@ -228,7 +305,7 @@ fn long_consistency_case<P: G>() -> Box<dyn Case> {
             }
             let built = build_cached::<P>(&cfg, &wit).honest();
             let ctx = contexts()[pos % 6];
-            proofs.push(lib_prove(&built, &ctx, &mut HRng::chacha(pos as u64)).honest());
+            proofs.push(lib_prove_honest(&built, &ctx, &mut HRng::chacha(pos as u64)));
             sts.push(built.statement.clone());
             ctxs.push(ctx);
             expect.push(wit.seed.map(|_| wit.blindings[0].clone()));
@@ -260,10 +337,11 @@ fn long_consistency_case<P: G>() -> Box<dyn Case> {
 
 pub fn run(rep: &mut Report) {
     rep.rule = "aggregation-1 configurations of the lattice x proofs {valid, one invalid mutant per component class (thorough: full menu)} x \
-                statement seed in {none, prover's, +1, single-byte flips (bytes 0,15,30,31; all 32 at n=8 / thorough), unrelated} x 3 modes; \
+                statement seed in {none, prover's, +1, 0, 1, -1, negated, single-byte flips (bytes 0,15,30,31; all 32 at n=8 / thorough), unrelated} x 3 modes; \
                 oracle: verdict(VerifyOnly) == verdict(RecoverAndVerify), identical for every seed; wrong seed => Ok and every mask \
                 component differs from the truth; RecoverOnly Ok on structurally valid proofs and equal to RecoverAndVerify's masks; every batch of 2-3 members over \
-                {seeded, unseeded, aggregated, seeded with spare capacity}: RecoverOnly masks == RecoverAndVerify masks"
+                {seeded, unseeded, aggregated, seeded with spare capacity}: RecoverOnly masks == RecoverAndVerify masks; the same output 2-3 times \
+                in one batch under seeds {prover's, two wrong ones, none} in every order: each member's mask == the mask it gets alone"
         .into();
     let tier = rep.tier;
     let mut cases: Vec<Box<dyn Case>> = Vec::new();
@@ -274,6 +352,10 @@ pub fn run(rep: &mut Report) {
     for d in [1usize, 2] {
         cases.push(batch_consistency_case::<F>(d));
         cases.push(batch_consistency_case::<RistrettoPoint>(d));
+    }
+    for cfg in [Cfg::new(2, 1, 1, 1), Cfg::new(8, 1, 2, 2), Cfg::new(32, 1, 1, 3), Cfg::new(64, 1, 1, 6)] {
+        cases.push(duplicate_members_case::<F>(cfg));
+        cases.push(duplicate_members_case::<RistrettoPoint>(cfg));
     }
     cases.push(long_consistency_case::<F>());
     cases.push(long_consistency_case::<RistrettoPoint>());
